@@ -805,6 +805,39 @@ func s11() {
 	}
 	vrt.Observe("how=%d recv=%d", how, len(h.received))
 }
+// S12: frames that no handler selects - of every message type, Error frames
+// with payloads that are not a string value among them - are dropped by the
+// reader without disturbing anything: no panic, the handlers stay registered
+// and are closed exactly once at shutdown.
+func s12() {
+	a, b := vnet.NewPair("ep", "peer")
+	ep := net.NewEndPoint(a)
+	g := register(ep, "g", matchNone, true)
+	h := register(ep, "h", func(hd *net.Header) (bool, bool) { return hd.ID == 77, true }, true)
+	typ := uint8(1 + vrt.ChooseFree(8, "type"))
+	payloads := [][]byte{nil, {1, 0, 0, 0, 's', 2, 0, 0, 0, 'o', 'k'}, {1, 0, 0, 0, 'i', 7, 0, 0, 0}, {1, 0, 0, 0, 'b', 1}, {3, 0, 0, 0, '[', 'i', ']', 0, 0, 0, 0}, {0xff, 0xff, 0xff, 0x7f}, {9}}
+	pay := payloads[vrt.ChooseFree(len(payloads), "payload")]
+	vrt.Explore()
+	w := vrt.GoWorker("peer", func() {
+		m := net.NewMessage(net.NewHeader(typ, 1, 1, 100, 5), pay)
+		m.Write(b)
+		m2 := frame(77, 2)
+		m2.Write(b)
+	})
+	vrt.Quiesce()
+	workersDone(w)
+	if len(h.received) != 1 {
+		vrt.Failf("delivery-count/after-unmatched-frame", "after a frame of type %d that no handler selects (payload %v) the next frame reached its handler %d times", typ, pay, len(h.received))
+	}
+	if g.closerCalls != 0 || h.closerCalls != 0 {
+		vrt.Failf("closer-before-shutdown", "a frame nobody selects closed a handler")
+	}
+	ep.Close()
+	vrt.Quiesce()
+	g.check()
+	h.check()
+	vrt.Observe("typ=%d", typ)
+}
 
 func init() {
 	add := func(name string, body func(), q, t int, doc string, must ...string) {
@@ -823,8 +856,9 @@ func init() {
 	add("s7b-full-queue-call-remove-close", s7(true), 2, 4, "same || Close()", "consumer-blocked-answered")
 	add("s7c-blocked-reply-then-close", s7c, 1, 3, "a Call for a full queue is answered on a synchronous pipe nobody reads; then Close()")
 	add("s8-filter-answers", s8, 1, 3, "every filter answer (matched x keep, including self-removal without consuming) on two frames, RemoveHandler after or during the traffic, then Close()")
-	add("s9-addhandler-callback", s9, 1, 3, "AddHandler (callback consumer) || three frames || RemoveHandler or Close(): callback order, closer exactly once")
+	add("s9-addhandler-callback", s9, 2, 4, "AddHandler (callback consumer) || three frames || RemoveHandler or Close(): callback order, closer exactly once")
 	add("s10-close-reports-error", s10, 1, 3, "the transport's Close returns an error (explicit Close / peer close), or the connection is closed underneath the endpoint, while a frame arrives")
 	add("s11-close-inside-finalizer", s11, 1, 3, "the finalizer of EndPointFinalizer closes the endpoint (or removes a handler) before the reader goroutine exists")
+	add("s12-frames-nobody-selects", s12, 0, 1, "a frame of each of the 8 message types with 7 payload shapes (Error frames whose payload is not a string value among them) that no handler selects, then a frame that one handler selects, then Close()")
 	add("s6-receiveany-close", s6, 2, 99, "ReceiveAny || two frames || Close()")
 }
